@@ -139,8 +139,8 @@ func runSessions(c isoCase, which []int, order []int) (map[int]*result, error) {
 // patience bounds what one run spends on waits that expire. Every wait is generous; when
 // the server really has stopped answering a connection (a reply went to another client,
 // a datagram was dropped) each further step of a long history would sit out the full
-// bound again, so after a few expired waits the remaining ones of that run are cut to a
-// tenth. An expired wait is never a verdict: only bytes and events are compared, and
+// bound again, so after two expired waits the remaining ones of that run are cut to a
+// fraction. An expired wait is never a verdict: only bytes and events are compared, and
 // checkIso re-collects them after a long quiet period when any wait expired.
 type patience struct{ left time.Duration }
 
@@ -148,7 +148,7 @@ var expiredWaits int // waits that expired since checkIso started (runs are sequ
 
 func (p *patience) bound(d time.Duration) time.Duration {
 	if p.left <= 0 {
-		return d / 10
+		return d / 25
 	}
 	return d
 }
@@ -163,7 +163,7 @@ func runSessionsLive(c isoCase, which []int, order []int) (map[int]*result, func
 	if err != nil {
 		return nil, nil, nil, fmt.Errorf("infra: %v", err)
 	}
-	pat := &patience{left: 12 * time.Second}
+	pat := &patience{left: 8 * time.Second}
 	waitIdle := func(cn *lab.Conn) {
 		d := pat.bound(svc.StepTimeout)
 		if cn.WaitIdle(d) == lab.Busy {
